@@ -117,6 +117,11 @@ func main() {
 				if k == "early" && jb.dist < 1200*time.Millisecond {
 					k = "block" // an "early" script needs a budget (distance - 2 grace periods) that two process starts fit into even on a loaded machine
 				}
+				if jb.mode == "sequential" && i == 0 && jb.dist >= 1200*time.Millisecond && jb.idx%2 == 1 {
+					// a script that finishes long before the deadline runs first: whatever its end
+					// releases or cancels must leave the later scripts their full time
+					k = "early"
+				}
 				if jb.mode == "sequential" {
 					// scripts run one after another: those after the first blocked one only start
 					// once the context has expired, so they are plain blockers (stopped at once)
